@@ -244,6 +244,7 @@ func runC12(w *World, r *Report) {
 	phaseTables(w, r, "C12")
 	c12OptionValidation(w, r, "C12")
 	c12PositionSource(w, r)
+	c12PositionRecorded(w, r)
 	c12Gate(w, r)
 	c12Namespaces(w, r)
 	c12Live(w, r)
